@@ -327,23 +327,40 @@ class Ref:
                         ctl.append(("rst" if w[0] == "reset_multi" else "en", c))
         return cur, ctl
 
+    def _async_load(self, dom):
+        """registers of `dom` (after renaming) take their initial values at once, reset-less ones excepted"""
+        for mi, (m, chain) in enumerate(self.mods):
+            for od in self.module_domains(m):
+                eff, ctl = self.effective(chain, od)
+                if eff != dom:
+                    continue
+                for si, mask in self.owned(mi, od).items():
+                    if not self.sigs[si]["reset_less"]:
+                        self.val[si] = (self.val[si] & ~mask) | (self.sigs[si]["init"] & mask)
+                for f in all_fsms(m["stmts"]):
+                    if f["domain"] == od:
+                        self.fsm_state[f["id"]] = f["init"] if f["init"] is not None else f["states"][0][0]
+
     def set_reset(self, dom, level):
         """Change a domain's reset line.  Asynchronous-reset domains load initial values as soon as reset rises."""
-        old = self.rst[dom]
-        self.rst[dom] = level
-        d = self.doms[dom]
-        if d["async_reset"] and level and not old:
-            for mi, (m, chain) in enumerate(self.mods):
-                for od in self.module_domains(m):
-                    eff, ctl = self.effective(chain, od)
-                    if eff != dom:
-                        continue
-                    for si, mask in self.owned(mi, od).items():
-                        if not self.sigs[si]["reset_less"]:
-                            self.val[si] = (self.val[si] & ~mask) | (self.sigs[si]["init"] & mask)
-                    for f in all_fsms(m["stmts"]):
-                        if f["domain"] == od:
-                            self.fsm_state[f["id"]] = f["init"] if f["init"] is not None else f["states"][0][0]
+        self.instant(set(), {dom: level})
+
+    def instant(self, active, rst_changes):
+        """One instant: reset lines change and/or clocks have active edges.  Every register samples pre-instant values; a reset
+        that is asserted in this instant counts as asserted at this instant's edges (only generated for asynchronous resets,
+        where both orders of the two events agree: resettable registers end at their initial value, reset-less ones take
+        their edge)."""
+        rises = []
+        for dom, level in rst_changes.items():
+            old = self.rst[dom]
+            self.rst[dom] = level
+            if self.doms[dom]["async_reset"] and level and not old:
+                rises.append(dom)
+        if active:
+            self.edge(active)
+        for dom in rises:
+            if dom not in active:
+                self._async_load(dom)
         self.settle()
 
     def set_clock(self, dom, level):
